@@ -372,6 +372,15 @@ func gen(r *prng.R, f proto.Flags, emit func(proto.Case)) {
 		id++
 		emit(proto.Case{ID: fmt.Sprintf("m%d", id), Ops: ops})
 	}
+	// dispatcher-level family: policies document -> loader/validation -> services.Initialize -> DispatchOnRequest
+	nd := 500
+	if f.Tier == "thorough" {
+		nd = 6000
+	}
+	for k := 0; k < nd*f.Budget; k++ {
+		id++
+		emit(proto.Case{ID: fmt.Sprintf("d%d", id), Ops: genDispatchCase(r.Fork())})
+	}
 	// concurrency stress: many goroutines on few keys, bursts larger than the cap, several windows
 	nst := 600
 	if f.Tier == "thorough" {
@@ -479,4 +488,98 @@ func gen(r *prng.R, f proto.Flags, emit func(proto.Case)) {
 			emit(proto.Case{ID: fmt.Sprintf("f%d", id), Ops: ops})
 		}
 	}
+}
+
+var (
+	dURLs    = []string{"api.example.com/orders", "api.example.com/invoices", "api.example.com/users"}
+	dMethods = []string{"GET", "GET", "POST"}
+	dWins    = []int64{2, 10, 60, 3600, 7200}
+	dRetry   = [][2]int{{429, 429}, {400, 599}, {503, 503}, {500, 500}, {200, 299}, {418, 429}}
+)
+
+// genDispatchCase: 1-3 endpoints with a throttling remedy (and maybe a retry remedy), sometimes a global
+// throttling and/or retry remedy, names distinct or (20 %) one name used twice; then requests to the endpoints.
+func genDispatchCase(r *prng.R) []string {
+	type ep struct{ url, method string }
+	var eps []ep
+	seen := map[string]bool{}
+	for n := r.Range(1, 3); len(eps) < n; {
+		e := ep{prng.Pick(r, dURLs), prng.Pick(r, dMethods)}
+		if !seen[e.url+e.method] {
+			seen[e.url+e.method] = true
+			eps = append(eps, e)
+		}
+	}
+	type pol struct {
+		scope, url, method, name, rest string
+		win                            int64
+	}
+	var pols []pol
+	throttle := func(name string) (string, int64) {
+		win := prng.Pick(r, dWins)
+		l := fmt.Sprintf("kind=throttle allowed=%d win=%d status=%d spill=%d renew=31", r.Range(1, 4), win,
+			prng.Pick(r, []int{0, 429, 503, 418}), b2i(r.Chance(15)))
+		if r.Chance(30) {
+			l += " hdr=X-Group default=" + prng.Pick(r, []string{"block", "allow", "use_default_allocation"}) +
+				" dpct=50/1 g=a&50/1 g=b&" + prng.Pick(r, []string{"25/1", "100/1", "7/1"})
+		}
+		return l, win
+	}
+	retry := func() string {
+		rg := prng.Pick(r, dRetry)
+		return fmt.Sprintf("kind=retry attempts=%d cooldown=%d mult=2 lo=%d hi=%d", r.Range(0, 2), r.Range(0, 3), rg[0], rg[1])
+	}
+	for i, e := range eps {
+		t, win := throttle("")
+		pols = append(pols, pol{"e", e.url, e.method, fmt.Sprintf("throttle-%d", i), t, win})
+		if r.Chance(40) {
+			pols = append(pols, pol{"e", e.url, e.method, fmt.Sprintf("retry-%d", i), retry(), 0})
+		}
+	}
+	if r.Chance(15) {
+		t, win := throttle("")
+		pols = append(pols, pol{"g", "", "", "throttle-all", t, win})
+	}
+	if r.Chance(45) {
+		pols = append(pols, pol{"g", "", "", "retry-all", retry(), 0})
+	}
+	if r.Chance(20) && len(pols) >= 2 {
+		// a copy-pasted block: one name used twice (the loader must refuse the document)
+		i, j := r.Intn(len(pols)), r.Intn(len(pols))
+		if i != j {
+			pols[j].name = pols[i].name
+		}
+	}
+	prng.Shuffle(r, pols)
+	var ops []string
+	for _, p := range pols {
+		l := "dpol scope=" + p.scope
+		if p.scope == "e" {
+			l += " url=" + proto.Enc(p.url) + " method=" + p.method
+		}
+		en := 1
+		if r.Chance(7) {
+			en = 0
+		}
+		ops = append(ops, fmt.Sprintf("%s name=%s enabled=%d %s", l, proto.Enc(p.name), en, p.rest))
+	}
+	ops = append(ops, "dload")
+	t := prng.Pick(r, bases)*sec + 1 + int64(r.Intn(int(sec)-1))
+	for k, n := 0, r.Range(5, 30); k < n; k++ {
+		e := eps[r.Intn(len(eps))]
+		url, method := e.url, e.method
+		if r.Chance(8) {
+			url = prng.Pick(r, append(dURLs, "api.example.com/other"))
+		}
+		if r.Chance(5) {
+			method = prng.Pick(r, []string{"GET", "POST", "PUT"})
+		}
+		t = nextT(r, t, prng.Pick(r, dWins), true)
+		l := fmt.Sprintf("dreq url=%s method=%s t=%d", proto.Enc(url), method, t)
+		if r.Chance(50) {
+			l += " h=X-Group&" + proto.Enc(prng.Pick(r, []string{"a", "b", "c", "A"}))
+		}
+		ops = append(ops, l)
+	}
+	return ops
 }
